@@ -659,7 +659,10 @@ func c14Batch(c *Check, tier string) int {
 			continue
 		}
 		nviol++
-		cs := c14MinimiseCase(caseByID[h.o.ID], k)
+		cs := caseByID[h.o.ID]
+		if mayMinimise() {
+			cs = c14MinimiseCase(caseByID[h.o.ID], k)
+		}
 		v := &kit.Violation{Property: "C14", Oracle: h.o.Kind, Key: k, Detail: detail + " — case " + h.o.ID, Seed: seed,
 			LogHash: h.o.LogHash, Scenario: mustJSON(cs), Minimised: cs != caseByID[h.o.ID]}
 		path, err := kit.WriteReplay(v)
